@@ -56,6 +56,39 @@ def run(tier, seed):
             die_tool("Patch.tla: invariant violated or TLC error")
         for c in g.cases:
             cases.append({"id": f"p{len(cases)}", "fs0": c["fs0"], "doc": c["doc"], "tool": len(cases) % 4 == 0, "_res": c["res"]})
+    # ---- beyond the two-operation alphabet (predictions follow directly from Patch.tla's rules):
+    #  (a) three operations: a path is removed, re-created by a later operation, and a still later operation fails
+    #      -> AllOrNothing: the original file is back, nothing else changed
+    #  (b) a hunk that only carries context still moves the forward cursor (and must be found)
+    def T(lines, nl=True):
+        return {"lines": lines, "t": "text", "eol": "lf", "nl": nl}
+    ABS = {"lines": [], "t": "absent", "eol": "lf", "nl": False}
+    fail_hunk = {"p": "d/h", "k": "upd", "mv": "none", "hs": [{"b": ["c", "c"], "a": ["a"]}]}
+    for fs0 in ({"f": T(["a", "b"]), "g": dict(ABS), "d/h": T(["a"])}, {"f": T(["a", "b"], nl=False), "g": T(["b"]), "d/h": T(["a", "b"])}):
+        docs = [
+            [{"p": "f", "k": "del"}, {"p": "f", "k": "add", "lines": ["c"]}, fail_hunk],
+            [{"p": "f", "k": "del"}, {"p": "f", "k": "add", "lines": ["c"]}, {"p": "f", "k": "upd", "mv": "none", "hs": [{"b": ["c"], "a": ["b"]}]}, fail_hunk],
+            [{"p": "f", "k": "del"}, {"p": "f", "k": "add", "lines": ["c"]}, {"p": "nope", "k": "del"}],
+        ]
+        if fs0["g"]["t"] == "absent":
+            docs.append([{"p": "f", "k": "upd", "mv": "g", "hs": [{"b": ["a"], "a": ["c"]}]}, {"p": "f", "k": "add", "lines": ["b"]}, fail_hunk])
+        else:
+            docs.append([{"p": "f", "k": "del"}, {"p": "g", "k": "upd", "mv": "f", "hs": [{"b": ["b"], "a": ["c"]}]}, fail_hunk])
+        for doc in docs:
+            cases.append({"id": f"p{len(cases)}", "fs0": fs0, "doc": doc, "tool": len(cases) % 2 == 0, "_res": {"ok": False, "fs": fs0, "changed": []}})
+    ctx = [
+        # anchor 'b' (context only), then 'a' -> 'c' must hit the 'a' AFTER the anchor
+        ({"f": T(["a", "b", "a"]), "g": dict(ABS), "d/h": dict(ABS)}, [{"p": "f", "k": "upd", "mv": "none", "hs": [{"b": ["b"], "a": ["b"]}, {"b": ["a"], "a": ["c"]}]}],
+         {"ok": True, "fs": {"f": T(["a", "b", "c"]), "g": dict(ABS), "d/h": dict(ABS)}, "changed": ["f"]}),
+        # a context-only hunk whose context is not in the file: the patch fails
+        ({"f": T(["a", "b"]), "g": dict(ABS), "d/h": dict(ABS)}, [{"p": "f", "k": "upd", "mv": "none", "hs": [{"b": ["c"], "a": ["c"]}]}],
+         {"ok": False, "fs": {"f": T(["a", "b"]), "g": dict(ABS), "d/h": dict(ABS)}, "changed": []}),
+        ({"f": T(["a", "b"]), "g": dict(ABS), "d/h": dict(ABS)}, [{"p": "f", "k": "upd", "mv": "none", "hs": [{"b": ["c"], "a": ["c"]}, {"b": ["a"], "a": ["c"]}]}],
+         {"ok": False, "fs": {"f": T(["a", "b"]), "g": dict(ABS), "d/h": dict(ABS)}, "changed": []}),
+    ]
+    for fs0, doc, res_ in ctx:
+        cases.append({"id": f"p{len(cases)}", "fs0": fs0, "doc": doc, "tool": False, "_res": res_})
+        cases.append({"id": f"p{len(cases)}", "fs0": fs0, "doc": doc, "tool": True, "_res": res_})
     results = run_harness("patch", [{k: c[k] for k in c if not k.startswith("_")} for c in cases], wd, "patch", shards=14, timeout=3000)
     by_id = {c["id"]: c for c in cases}
     for res in results:
